@@ -209,7 +209,24 @@ var (
 
 // variants: 0 = zero / empty (nil pointers, empty variadics), 1 = filled (non-empty everything), 2 = mixed (scalars
 // filled, composites present but zero, one variadic element)
+//
+// variants >= 3 are "filled" with a keyword instead of "k" for every string (methods that reject arbitrary option
+// strings); they are only tried for methods that panic on variants 0..2.
+var c41keywords = []string{"BEFORE", "NX", "ITEMS", "ASC", "m"}
+
 func c41val(t reflect.Type, variant, depth int) (reflect.Value, bool) {
+	if variant >= 3 {
+		if t.Kind() == reflect.String {
+			v := reflect.New(t).Elem()
+			v.SetString(c41keywords[variant-3])
+			return v, true
+		}
+		if t.Kind() == reflect.Slice || t.Kind() == reflect.Ptr || t.Kind() == reflect.Struct || t.Kind() == reflect.Array || t.Kind() == reflect.Map {
+			// composites: as in the filled variant, strings inside become the keyword
+			return c41valFilledKeyword(t, variant, depth)
+		}
+		variant = 1
+	}
 	if t == c41tCtx {
 		return reflect.ValueOf(context.Background()), true
 	}
@@ -320,12 +337,54 @@ func c41val(t reflect.Type, variant, depth int) (reflect.Value, bool) {
 	return v, true
 }
 
+func c41valFilledKeyword(t reflect.Type, variant, depth int) (reflect.Value, bool) {
+	v := reflect.New(t).Elem()
+	if depth >= 4 {
+		return v, true
+	}
+	switch t.Kind() {
+	case reflect.Slice:
+		s := reflect.MakeSlice(t, 2, 2)
+		for i := 0; i < 2; i++ {
+			e, ok := c41val(t.Elem(), variant, depth+1)
+			if !ok {
+				return v, false
+			}
+			s.Index(i).Set(e)
+		}
+		v.Set(s)
+	case reflect.Ptr:
+		e, ok := c41val(t.Elem(), variant, depth+1)
+		if !ok {
+			return v, false
+		}
+		p := reflect.New(t.Elem())
+		p.Elem().Set(e)
+		v.Set(p)
+	case reflect.Struct:
+		if t == c41tTime {
+			return reflect.ValueOf(time.Unix(1000, 0)), true
+		}
+		for i := 0; i < t.NumField(); i++ {
+			if t.Field(i).PkgPath != "" {
+				continue
+			}
+			if e, ok := c41val(t.Field(i).Type, variant, depth+1); ok {
+				v.Field(i).Set(e)
+			}
+		}
+	default:
+		return c41val(t, 1, depth)
+	}
+	return v, true
+}
+
 func c41args(mt reflect.Type, variant int) ([]reflect.Value, bool) {
 	var in []reflect.Value
 	for i := 1; i < mt.NumIn(); i++ { // 0 is the receiver
 		t := mt.In(i)
 		if mt.IsVariadic() && i == mt.NumIn()-1 {
-			n := []int{0, 2, 1}[variant]
+			n := []int{0, 2, 1, 2, 2, 2, 2, 2}[variant]
 			for j := 0; j < n; j++ {
 				e, ok := c41val(t.Elem(), variant, 1)
 				if !ok {
@@ -381,6 +440,27 @@ func c41callOp(pipe Pipeliner, op c41opRef) (handle Cmder, hasHandle bool, pan a
 
 // ---------------------------------------------------------------- part A: generic sequences
 
+// c41shiftDemo shows on the fake server what a caller observes when op is queued between SET a v0 and GET a.
+func c41shiftDemo(kind string, op c41opRef) string {
+	srv := simredis.New()
+	p := c41newPipe(kind, rueidis.NewVerifSimClient(srv, rueidis.ClientOption{DisableCache: true}))
+	ctx := context.Background()
+	set := p.Set(ctx, "a", "v0", 0)
+	_, _, pan, _ := c41callOp(p, op)
+	get := p.Get(ctx, "a")
+	incr := p.Incr(ctx, "n")
+	var ret []Cmder
+	var err error
+	if pan == nil {
+		pan, _ = vrun.Catch(func() { ret, err = p.Exec(ctx) })
+	}
+	if pan != nil {
+		return fmt.Sprintf("demo: panic %v", pan)
+	}
+	return fmt.Sprintf("demo on the fake server: Set(a,v0); %s(canned variant %d); Get(a); Incr(n); Exec -> %d Cmders, err=%v; Set: val=%q err=%v; Get: val=%q err=%v (want \"v0\"); Incr: val=%d err=%v (want 1)",
+		op.M, op.V, len(ret), err, set.Val(), set.Err(), get.Val(), get.Err(), incr.Val(), incr.Err())
+}
+
 type c41genCase struct {
 	Part   string     `json:"part"` // "gen"
 	Kind   string     `json:"kind"` // "pipe" | "tx"
@@ -434,31 +514,35 @@ func c41runGen(r *vrun.Run, c c41genCase) {
 		r.Violate(sig, fmt.Sprintf("case %s %v finish=%s\n", c.Kind, c.Ops, c.Finish)+fmt.Sprintf(format, a...), c)
 	}
 	var handles []Cmder
-	aligned := true
 	for _, op := range c.Ops {
 		n0, r0 := len(px.cmds), len(pl.rets)
 		h, hasH, pan, site := c41callOp(pipe, op)
 		if pan != nil {
 			if len(c.Ops) > 1 {
-				fail(fmt.Sprintf("%s.%s: panics only after other commands were queued (%s)", tn, op.M, site), "panic: %v", pan)
+				fail(fmt.Sprintf("Pipeline.%s: panics only after other commands were queued (%s)", op.M, site), "panic: %v", pan)
 			}
 			r.Outcome("op panics on canned arguments")
 			return
 		}
 		dc, dr := len(px.cmds)-n0, len(pl.rets)-r0
 		if len(fake.batches) != 0 || len(fake.immediate) != 0 {
-			fail(fmt.Sprintf("%s.%s: sends to the real client at queue time (capture proxy bypassed)", tn, op.M), "calls on the real client before Exec: batches=%v other=%v", fake.batches, fake.immediate)
+			fail(fmt.Sprintf("Pipeline.%s: sends to the real client at queue time (capture proxy bypassed)", op.M), "calls on the real client before Exec: batches=%v other=%v", fake.batches, fake.immediate)
 			return
 		}
-		if len(px.cmds) != len(pl.rets) {
-			fail(fmt.Sprintf("%s.%s: queues %d command(s) but %d result Cmder(s) - later results shift", tn, op.M, dc, dr), "after the call: %d recorded commands %v, %d Cmders", len(px.cmds), c41argvs(px.cmds), len(pl.rets))
-			aligned = false
+		if dc != dr {
+			fail(fmt.Sprintf("Pipeline.%s: queues %d command(s) but %d result Cmder(s) - later results shift", op.M, dc, dr), "after the call: %d recorded commands %v, %d Cmders\n%s", len(px.cmds), c41argvs(px.cmds), len(pl.rets), c41shiftDemo(c.Kind, op))
+			r.Outcome(fmt.Sprintf("queue call: +%d command(s) +%d Cmder(s)", dc, dr))
+			// everything after this point is a consequence; Exec must at least not panic
+			if pan, site := vrun.Catch(func() { pipe.Exec(context.Background()) }); pan != nil {
+				fail(fmt.Sprintf("%s.Exec: panic after a misaligned queue call (%s)", tn, site), "panic: %v", pan)
+			}
+			return
 		}
 		if pipe.Len() != len(px.cmds) {
 			fail(tn+".Len: differs from the number of recorded commands", "Len()=%d recorded=%d", pipe.Len(), len(px.cmds))
 		}
 		if dr == 1 && hasH && pl.rets[len(pl.rets)-1] != h {
-			fail(fmt.Sprintf("%s.%s: Cmder returned to the caller is not the recorded one", tn, op.M), "returned %T %p, recorded %T %p", h, h, pl.rets[len(pl.rets)-1], pl.rets[len(pl.rets)-1])
+			fail(fmt.Sprintf("Pipeline.%s: Cmder returned to the caller is not the recorded one", op.M), "returned %T %p, recorded %T %p", h, h, pl.rets[len(pl.rets)-1], pl.rets[len(pl.rets)-1])
 		}
 		if dr == 1 && hasH {
 			handles = append(handles, h)
@@ -469,15 +553,6 @@ func c41runGen(r *vrun.Run, c c41genCase) {
 	}
 	want := c41argvs(px.cmds)
 	n := len(want)
-	if !aligned {
-		// still run Exec: it must at least not panic; the detailed mapping check is meaningless
-		if c.Finish != "discard" {
-			if pan, site := vrun.Catch(func() { pipe.Exec(context.Background()) }); pan != nil {
-				fail(fmt.Sprintf("%s.Exec: panic after a misaligned queue call (%s)", tn, site), "panic: %v", pan)
-			}
-		}
-		return
-	}
 	if c.Finish == "discard" {
 		pipe.Discard()
 		if pipe.Len() != 0 || len(px.cmds) != 0 || len(pl.rets) != 0 {
@@ -1230,11 +1305,16 @@ type c41pipes interface {
 
 // ---------------------------------------------------------------- driver
 
-func c41ops(r *vrun.Run, kind string) (ops []c41opRef, methods int) {
+// c41ops enumerates the queueing methods of the pipeline type by reflection. all = every (method, argument variant)
+// that does not panic on a fresh pipeline and records a distinct command; first = the first such variant per method;
+// reps = one op per distinct result Cmder type plus every op whose queue delta is not (+1 command, +1 Cmder).
+func c41ops(r *vrun.Run, kind string) (all, first, reps []c41opRef) {
 	pipe := c41newPipe(kind, &c41fast{})
 	t := reflect.TypeOf(pipe)
 	tn := c41typeName(kind)
 	var skipped, noargs, allpanic []string
+	methods := 0
+	seenType := map[string]bool{}
 	for i := 0; i < t.NumMethod(); i++ {
 		m := t.Method(i)
 		if why, ok := c41skip[m.Name]; ok {
@@ -1244,7 +1324,10 @@ func c41ops(r *vrun.Run, kind string) (ops []c41opRef, methods int) {
 		methods++
 		seen := map[string]bool{}
 		usable := 0
-		for v := 0; v < 3; v++ {
+		for v := 0; v < 3+len(c41keywords); v++ {
+			if v >= 3 && usable > 0 {
+				break // keyword variants are only for methods that reject everything else
+			}
 			if _, ok := c41args(m.Type, v); !ok {
 				noargs = append(noargs, m.Name)
 				break
@@ -1252,19 +1335,29 @@ func c41ops(r *vrun.Run, kind string) (ops []c41opRef, methods int) {
 			op := c41opRef{M: m.Name, V: v}
 			// probe on a fresh pipeline: drop variants that panic on the canned arguments or repeat the same command
 			p := c41newPipe(kind, &c41fast{})
-			px, _ := c41internals(p)
-			_, _, pan, _ := c41callOp(p, op)
+			px, pl := c41internals(p)
+			h, _, pan, _ := c41callOp(p, op)
 			if pan != nil {
 				r.Outcome("op panics on canned arguments")
 				continue
 			}
-			key := fmt.Sprint(c41argvs(px.cmds))
+			key := fmt.Sprint(c41argvs(px.cmds), len(pl.rets))
 			if seen[key] {
 				continue
 			}
 			seen[key] = true
 			usable++
-			ops = append(ops, op)
+			all = append(all, op)
+			if usable == 1 {
+				first = append(first, op)
+			}
+			tk := fmt.Sprintf("%T", h)
+			if len(px.cmds) != 1 || len(pl.rets) != 1 {
+				reps = append(reps, op)
+			} else if !seenType[tk] {
+				seenType[tk] = true
+				reps = append(reps, op)
+			}
 		}
 		if usable == 0 {
 			allpanic = append(allpanic, m.Name)
@@ -1277,14 +1370,16 @@ func c41ops(r *vrun.Run, kind string) (ops []c41opRef, methods int) {
 		r.Bounds["methods_panicking_on_every_canned_variant"] = allpanic
 	}
 	r.Bounds[tn+"_queueing_methods"] = methods
-	r.Bounds[tn+"_ops(method x distinct argument variant)"] = len(ops)
+	r.Bounds[tn+"_ops_all(method x distinct argument variant)"] = len(all)
+	r.Bounds[tn+"_ops_first_variant"] = len(first)
+	r.Bounds[tn+"_ops_representatives(one per Cmder type + anomalous deltas)"] = len(reps)
 	return
 }
 
 func TestVerif_C41(t *testing.T) {
 	vrun.Main(t, "C41", func(r *vrun.Run) {
 		c41init()
-		r.Rule = "A: every sequence of <=2 (thorough <=3 for the filled variant) queueing calls over all exported methods of *Pipeline and *TxPipeline (reflection; 3 canned argument variants, identical/panicking variants dropped) x finish {Exec with per-position Redis errors, Exec with per-position transport errors, Discard}; B: every sequence of <=3 (4) curated commands on key a (+b) x preset type of a x {Pipeline, TxPipeline} x {object+Exec, Pipelined(fn)}; C: curated sequences of <=2 (3) x transaction outcomes {WATCH abort by another session, WATCH of an untouched key, nil to EXEC, error to EXEC, unknown command, connection broken after j commands}. non-trivial = sequence of >=2 commands, or any failed transaction"
+		r.Rule = "A: every single call over every (method, canned argument variant) of all exported methods of *Pipeline and *TxPipeline (reflection; 3 variants, identical/panicking variants dropped), every pair (quick: first usable variant per method; thorough: every variant), thorough: every triple over representatives (one op per distinct result Cmder type + anomalous ops) x finish {Exec with per-position Redis errors, Exec with per-position transport errors, Discard}; B: every sequence of <=3 (4) curated commands on key a (+b) x preset type of a x {Pipeline, TxPipeline} x {object+Exec, Pipelined(fn)}; C: curated sequences of <=2 (3) x transaction outcomes {WATCH abort by another session, WATCH of an untouched key, nil to EXEC, error to EXEC, unknown command, connection broken after j commands}. non-trivial = sequence of >=2 commands, or any failed transaction"
 		if raw, ok := r.ReplayPayload(); ok {
 			var probe struct {
 				Part string `json:"part"`
@@ -1385,24 +1480,26 @@ func TestVerif_C41(t *testing.T) {
 		maxA := vrun.Pick(r, 2, 3)
 		r.Bounds["generic_max_len"] = maxA
 		for _, kind := range []string{"pipe", "tx"} {
-			ops, _ := c41ops(r, kind)
-			var filled []c41opRef // depth 3 only over one variant per method (the first usable one)
-			last := ""
-			for _, o := range ops {
-				if o.M != last {
-					filled = append(filled, o)
-					last = o.M
-				}
-			}
+			all, first, reps := c41ops(r, kind)
+			pairAlpha := vrun.Pick(r, first, all) // quick: pairs over the first usable variant of every method; thorough: over every variant
+			r.Bounds["generic_pair_alphabet"] = vrun.Pick(r, "first usable argument variant of every method", "every distinct argument variant of every method")
+			r.Bounds["generic_triple_alphabet"] = "representatives: one op per distinct result Cmder type + every op with an anomalous queue delta"
 			finishes := []string{"rediserr", "transport", "discard"}
 			run := func(seq []c41opRef) {
 				for _, f := range finishes {
-					c := c41genCase{Part: "gen", Kind: kind, Ops: seq, Finish: f}
-					c41runGen(r, c)
+					c41runGen(r, c41genCase{Part: "gen", Kind: kind, Ops: seq, Finish: f})
 				}
 			}
 			run(nil)
-			for _, a := range ops {
+			for _, a := range all { // singles: every variant
+				item++
+				if !r.Mine(item) {
+					continue
+				}
+				run([]c41opRef{a})
+				r.AddStates(kind+"/1/"+a.String(), int64(len(finishes)))
+			}
+			for _, a := range pairAlpha {
 				item++
 				if !r.Mine(item) {
 					continue
@@ -1410,28 +1507,28 @@ func TestVerif_C41(t *testing.T) {
 				if r.TimeUp() {
 					return
 				}
-				run([]c41opRef{a})
-				for _, b := range ops {
+				for _, b := range pairAlpha {
 					run([]c41opRef{a, b})
 				}
-				r.AddStates(kind+"/"+a.String(), int64(1+len(ops))*int64(len(finishes)))
+				r.AddStates(kind+"/2/"+a.String(), int64(len(pairAlpha))*int64(len(finishes)))
 				r.NonTrivialStr(kind, a.String())
 			}
 			if maxA >= 3 {
-				for _, a := range filled {
+				for _, a := range reps {
 					item++
 					if !r.Mine(item) {
 						continue
 					}
-					for _, b := range filled {
+					for _, b := range reps {
 						if r.TimeUp() {
 							return
 						}
-						for _, c := range filled {
+						for _, c := range reps {
 							run([]c41opRef{a, b, c})
 						}
 					}
-					r.AddStates(kind+"/3/"+a.String(), int64(len(filled))*int64(len(filled))*int64(len(finishes)))
+					r.AddStates(kind+"/3/"+a.String(), int64(len(reps))*int64(len(reps))*int64(len(finishes)))
+					r.NonTrivialStr(kind, "3", a.String())
 				}
 			}
 		}
